@@ -254,7 +254,8 @@ def run(ctx):
     if len(qe) == 1:
         b = qe[0]
         fcalls = [(bb, t) for bb, t in b.calls() if cname(t["func"]).endswith("QueryResultWriter::<'a, W>::finalize")]
-        ok = len(fcalls) == 1 and b.arg_origin(fcalls[0][0], 1) == ("const", ("int", 1, "bool"))
+        import rules.C03 as C03
+        ok = len(fcalls) == 1 and C03.more_arg(b.arg_origin(fcalls[0][0], 1)) is True
         werr = [bb for bb, t in b.calls() if cname(t["func"]) == "writers::write_err"]
         ok = ok and werr and b.dominates(fcalls[0][0], werr[0])
         ctx.ob("C13.entry-points", ok, "QueryResultWriter::error must flush the pending terminator with more_results=true before the ERR packet, "
